@@ -101,6 +101,14 @@ impl MemReader {
             next: 0,
         }
     }
+    /// Columns named explicitly (for column-permutation relations).
+    pub fn with_names(names: &[String], rows: Vec<Vec<genotype::Result>>) -> Self {
+        MemReader {
+            samples: names.iter().map(|n| Sample::from(n.clone())).collect(),
+            rows,
+            next: 0,
+        }
+    }
     pub fn from_classes(n_samples: usize, rows: &[Vec<Cls>]) -> Self {
         Self::new(
             n_samples,
